@@ -41,6 +41,10 @@ fn cases(ob: &str) -> Vec<String> {
     for l in ["1e309", "1e400", "-1e309", "2.5e310", "17976931348623157e293", "1e99999", "2e308", "-1.8e308", "17976931348623159e292", "1.8e+308", "#d2e308", "-1e99999999999", "1e99999999999", "-2.5e+4294967296", "#d-1e2147483648"] { out.push(format!("huge:{}", l)); }
     out.push(format!("huge:1{}", "0".repeat(309)));
     out.push("printer:".into());
+    // every power-of-ten scale the float conversion can be asked for, with short and long significands
+    for m in ["1", "-3", "2.5", "1.25", "1234.5678", "9007199254740991", "12345678901234567890123", "0.0007", "99999999999999999999"] { out.push(format!("esweep:{}", m)); }
+    let seed = crate::gen::thorough_seed(ob).unwrap_or(0);
+    for k in 0..crate::gen::scale(ob, 16) as u64 { out.push(format!("rnd:{}", seed.wrapping_mul(1000).wrapping_add(k))); }
     for i in 0..8 { out.push(format!("octets:{}", i)); }
     if ob.contains("parse_long_integer") { out.sort_by_key(|c| !c.starts_with("long")); }
     out
@@ -74,6 +78,30 @@ fn check(case: &str) -> Option<String> {
                 }
                 Err(e) => Some(format!("from_str({:?}) fails: {} (the literal denotes {:?})", lit, e, want)),
             }
+        }
+        "esweep" => {
+            for e in -345i32..=309 {
+                for lit in [format!("{}e{}", p[1], e), format!("{}E{}{}", p[1], if e >= 0 { "+" } else { "" }, e)] {
+                    if let Some(m) = dec_one(&lit) { return Some(m); }
+                }
+            }
+            None
+        }
+        "rnd" => {
+            let mut r = crate::gen::Rng::new(p[1].parse().ok()?);
+            for _ in 0..400 {
+                let nd = 1 + r.below(24);
+                let mut lit = String::new();
+                if r.below(3) == 0 { lit.push('-'); }
+                let dot = r.below(nd + 1);
+                for i in 0..nd {
+                    if i == dot && i > 0 { lit.push('.'); }
+                    lit.push((b'0' + if i == 0 { 1 + r.below(9) } else { r.below(10) } as u8) as char);
+                }
+                if dot == nd || dot == 0 || r.below(4) > 0 { lit.push_str(&format!("e{}", r.below(640) as i32 - 330)); }
+                if let Some(m) = dec_one(&lit) { return Some(m); }
+            }
+            None
         }
         "int" => {
             let f: Vec<&str> = p[1].split(':').collect();
@@ -169,4 +197,29 @@ fn check(case: &str) -> Option<String> {
         }
         _ => None,
     }
+}
+
+/// One decimal literal with fraction and/or exponent against std's correctly rounded conversion: a value no double can hold is an error,
+/// a normal-range value is within 2^-50 (subnormal results, where that precision does not exist, are only required to be finite and close in
+/// absolute terms), and digits below 2^53 with a written and an effective exponent of magnitude at most 22 are exact.
+fn dec_one(lit: &str) -> Option<String> {
+    let want: f64 = lit.parse().ok()?;
+    let r = lexpr::from_str(lit);
+    if want.is_infinite() {
+        return match r { Ok(v) => Some(format!("from_str({:?}) = {} although no double can hold the value", lit, v)), Err(_) => None };
+    }
+    let v = match r { Ok(v) => v, Err(e) => return Some(format!("from_str({:?}) fails: {} (the literal denotes {:?})", lit, e, want)) };
+    let g = match v.as_f64() { Some(g) if v.is_f64() => g, _ => return Some(format!("from_str({:?}) = {} is not a float", lit, v)) };
+    if !g.is_finite() { return Some(format!("from_str({:?}) = {:?}", lit, g)); }
+    if want.abs() < f64::MIN_POSITIVE {
+        return if (g - want).abs() <= f64::MIN_POSITIVE * 2f64.powi(-40) { None } else { Some(format!("from_str({:?}) = {:e}, exact value rounds to {:e}", lit, g, want)) };
+    }
+    if ((g - want) / want).abs() > 2f64.powi(-50) { return Some(format!("from_str({:?}) = {:e}, exact value rounds to {:e}", lit, g, want)); }
+    let (mant, exp) = match lit.find(|c| c == 'e' || c == 'E') { Some(i) => (&lit[..i], lit[i + 1..].parse::<i64>().ok()?), None => (lit, 0) };
+    let digits: String = mant.chars().filter(|c| c.is_ascii_digit()).collect();
+    let frac = mant.find('.').map(|i| mant.len() - i - 1).unwrap_or(0) as i64;
+    // the build without fast-float-parsing (the replay crate's `with-serde` feature is off exactly there) is correctly rounded up to 19 significant digits
+    if !cfg!(feature = "with-serde") && digits.trim_start_matches('0').len() <= 19 && exp.abs() <= 400 && g != want { return Some(format!("from_str({:?}) = {:e} in the build without fast-float-parsing, the correctly rounded double is {:e}", lit, g, want)); }
+    if digits.len() <= 15 && exp.abs() <= 22 && (exp - frac).abs() <= 22 && g != want { return Some(format!("from_str({:?}) = {:e}, the correctly rounded double is {:e}", lit, g, want)); }
+    None
 }
